@@ -305,11 +305,11 @@ Theorem transition_log d i s e t s1 cur nxt s2 s3 k :
   f_next s3 = None -> assoc nxt (fd_timed d) = None -> chain_limit d = S k ->
   f_state s3 = Some nxt ->
   exists final, fsm_event d i s e t = (final, Ok true) /\
-    f_state final = Some nxt /\ f_out final = (if py_eq (f_out s3) (VStr nxt) then f_out s3 else VStr nxt) /\
+    f_state final = Some nxt /\ f_out final = (if py_eq (f_out s3) (calc_out i s3 nxt) then f_out s3 else calc_out i s3 nxt) /\
     f_log final = f_log s3
-      ++ (if py_eq (f_out s3) (VStr nxt) then [] else [LOut (f_out s3) (VStr nxt)])
+      ++ (if py_eq (f_out s3) (calc_out i s3 nxt) then [] else [LOut (f_out s3) (calc_out i s3 nxt)])
       ++ (if str_mem nxt (i_on_enter i)
-          then [LOnEnter nxt (if py_eq (f_out s3) (VStr nxt) then f_out s3 else VStr nxt)] else []).
+          then [LOnEnter nxt (if py_eq (f_out s3) (calc_out i s3 nxt) then f_out s3 else calc_out i s3 nxt)] else []).
 Proof.
   intros Hi Hs Hr Hx Hn2 He Hn Ht Hl Hs3.
   destruct (resolve_event_frame _ _ _ _ _ _ _ Hr) as (l & (Hst & Hout & _ & _ & _) & _).
@@ -317,7 +317,7 @@ Proof.
   assert (Hi1 : initialized s1 = true) by (unfold initialized in *; now rewrite Hout).
   rewrite Hi1, Hst, Hs, Hx. cbn [f_next st_log]. rewrite Hn2, Hl. simpl. rewrite He, Hn, Ht. rewrite Hs3.
   eexists. split; [reflexivity|].
-  destruct (py_eq (f_out s3) (VStr nxt)) eqn:Ep; simpl.
+  destruct (py_eq (f_out s3) (calc_out i s3 nxt)) eqn:Ep; simpl.
   - repeat split; try reflexivity; try exact Hs3.
   - repeat split; try reflexivity; try exact Hs3.
     destruct (str_mem nxt (i_on_enter i)); simpl; rewrite <- ?app_assoc; reflexivity.
